@@ -26,6 +26,8 @@ def is_acquire(s: ast.stmt):
 
 def check(ctx):
     repo = ctx.repo
+    ctx.rule("R15.6", "an abandoned update() cannot have touched the state the Runner still holds: solver outputs are fresh arrays", 12)
+    ctx.rule("R15.7", "... and update() never writes into the arrays it is handed", 1)
     ctx.rule("R15.1", "no exception edge leaves a file acquisition while an earlier file of the same attempt is still open and on disk", 1)
     ctx.rule("R15.2", "DataHandler is only used as a context manager; __exit__ always closes and never swallows; close() releases "
                       "everything __enter__ acquired", 4)
@@ -37,6 +39,9 @@ def check(ctx):
     open_modes(ctx)
     cancellation(ctx)
     frame_atomicity(ctx)
+    from ..effects import fresh_outputs, input_purity
+    fresh_outputs(ctx, "R15.6", "after Ctrl-C inside update() the Runner writes (or keeps) the previous step's state, part of which has already been overwritten by the abandoned step: the file's last frame is not the state of any step")
+    input_purity(ctx, "R15.7", 'an update() abandoned by an interrupt has already modified the arrays of the previous state that the Runner goes on to save')
     ctx.assume("h5py.File.close() flushes; the OS honours exclusive creation")
     ctx.decline("SWMR semantics, OS-level file locking, asynchronous interrupts between bookkeeping statements")
 
